@@ -104,13 +104,15 @@ class World16(c02.World):
 
     def begin_stop(self):
         """The application calls AccessoryDriver.async_stop(): it runs up to the pending mDNS goodbye."""
-        from unittest.mock import MagicMock
+        from unittest.mock import AsyncMock, MagicMock, patch
 
         d = self.driver
         d.advertiser = _GateAdvertiser(self.loop)
         d.aio_stop_event = asyncio.Event()
-        d.http_server.server = MagicMock()
-        d.http_server._connection_cleanup = MagicMock()  # noqa: SLF001  (the server was never started for real)
+        # the HAP server is started through its own public entry point (only the listening socket is a stub), so that
+        # whatever it keeps for its idle sweep exists under whatever name
+        with patch.object(self.loop, "create_server", AsyncMock(return_value=MagicMock())):
+            self.loop.run_until_complete(d.http_server.async_start(self.loop))
         self.stop_task = self.loop.create_task(d.async_stop())
         self.tick()
 
